@@ -193,6 +193,56 @@ impl Tree {
             set_times(&p, n.mtime_ns, is_link);
         }
     }
+
+    /// Like `materialize`, but siblings are created in another order (parents still before their
+    /// children), so that file systems whose `readdir` order depends on creation order (tmpfs:
+    /// newest first) hand the program the same tree in another listing order.  Content and
+    /// metadata of the result are identical to `materialize`: metadata is applied afterwards,
+    /// deepest first, so directory mtimes stick.
+    pub fn materialize_ordered(&self, root: &Path, order: &MatOrder) {
+        fs::create_dir_all(root).unwrap();
+        let mut nodes: Vec<&Node> = self.nodes.values().collect();
+        match order {
+            MatOrder::Normal => {}
+            MatOrder::Reverse => nodes.reverse(),
+            MatOrder::Shuffled(seed) => Rng::new(*seed).shuffle(&mut nodes),
+        }
+        // stable: keeps the chosen sibling order within one depth
+        nodes.sort_by_key(|n| n.comps.len());
+        for n in &nodes {
+            let p = root.join(n.rel());
+            match &n.kind {
+                NodeKind::Dir => {
+                    if !n.comps.is_empty() {
+                        fs::create_dir(&p).unwrap();
+                    }
+                }
+                NodeKind::File(c) => fs::write(&p, c).unwrap(),
+                NodeKind::Symlink(t) => std::os::unix::fs::symlink(t, &p).unwrap(),
+            }
+        }
+        nodes.sort_by_key(|n| std::cmp::Reverse(n.comps.len()));
+        for n in &nodes {
+            let p = root.join(n.rel());
+            let is_link = matches!(n.kind, NodeKind::Symlink(_));
+            lchown(&p, n.uid, n.gid);
+            if !is_link {
+                fs::set_permissions(&p, fs::Permissions::from_mode(n.mode)).unwrap();
+            }
+            set_times(&p, n.mtime_ns, is_link);
+        }
+    }
+}
+
+/// Sibling creation order for `Tree::materialize_ordered`.
+#[derive(Clone, Debug, PartialEq, Eq)]
+pub enum MatOrder {
+    /// as `materialize`: by depth, then by apath
+    Normal,
+    /// by depth, then by apath descending
+    Reverse,
+    /// by depth, then in a seeded random order
+    Shuffled(u64),
 }
 
 /// What lstat + read observe for one path.
